@@ -29,7 +29,7 @@ func init() { harness.Register(check{}) }
 
 func (check) ID() string { return "C14" }
 
-const faultsPerCase = 8
+const faultsPerCase = 10
 
 func (check) Cases(tier string) int {
 	if tier == "thorough" {
@@ -103,8 +103,11 @@ func (check) Run(seed int64, tier string, idx int, verbose bool) harness.Result 
 		for _, c := range cs.selectFaults(ps) {
 			cs.runFault(c.pos, c.f)
 			if idx < 2 {
-				sample = append(sample, fmt.Sprintf("%s at %s (%s, %s)", c.f.kind, pathStr(c.pos.path), c.pos.shape(), c.pos.depthClass()))
+				sample = append(sample, fmt.Sprintf("%s at %s (%s, %s)", c.f.sigKind(), pathStr(c.pos.path), c.pos.shape(), c.pos.depthClass()))
 			}
+		}
+		if panicked, pv, where := harness.Safe(cs.missingReads); panicked {
+			res.Violate("panic:missing-reads", "panic %q at %s", clip(pv, 300), where)
 		}
 	}
 	panicked, pv, where := harness.Safe(func() { drive(res, r, V, cs.base) })
@@ -184,20 +187,37 @@ type cand struct {
 func (cs *caseState) selectFaults(ps []*position) []cand {
 	r := cs.r
 	byKind := map[string][]cand{}
-	var prims [][]seg
+	var prims, dicts, lists [][]seg
 	for _, p := range ps {
-		if p.node != nil && p.node.Kind == model.KPrim {
+		switch {
+		case p.node != nil && p.node.Kind == model.KPrim:
 			prims = append(prims, p.path)
+		case p.node != nil && p.node.Kind == model.KSub && len(p.node.A) > 0:
+			lists = append(lists, p.path)
+		case p.node != nil && p.node.Kind == model.KSub && len(p.node.D) > 0:
+			dicts = append(dicts, p.path)
 		}
 	}
-	env := faultEnv{pick: r.Intn, topStruct: cs.top.kind == kStruct, primFor: func(at []seg) string {
-		for try := 0; try < 4 && len(prims) > 0; try++ {
-			if q := prims[r.Intn(len(prims))]; pathStr(q) != pathStr(at) && !strings.HasPrefix(pathStr(q), pathStr(at)+".") {
-				return pathStr(q)
+	// a setting elsewhere in the tree: not the faulty one and not below it
+	// (what is there is replaced by the fault)
+	elsewhere := func(l [][]seg, at []seg) []seg {
+		for try := 0; try < 4 && len(l) > 0; try++ {
+			if q := l[r.Intn(len(l))]; pathStr(q) != pathStr(at) && !strings.HasPrefix(pathStr(q), pathStr(at)+".") {
+				return q
 			}
 		}
-		return ""
-	}}
+		return nil
+	}
+	env := faultEnv{pick: r.Intn, topStruct: cs.top.kind == kStruct,
+		primFor: func(at []seg) string { return pathStr(elsewhere(prims, at)) },
+		dictFor: func(at []seg) string { return pathStr(elsewhere(dicts, at)) },
+		listFor: func(at []seg) (string, int) {
+			q := elsewhere(lists, at)
+			if q == nil {
+				return "", 0
+			}
+			return pathStr(q), len(getNode(cs.V, q).A)
+		}}
 	for _, p := range ps {
 		for _, f := range faultsAt(p, env) {
 			byKind[f.kind] = append(byKind[f.kind], cand{p, f})
@@ -266,6 +286,13 @@ func (cs *caseState) runFault(pos *position, f fault) {
 	}
 	res.Ev("faults_injected", 1)
 	res.SetAdd("fault_kind", f.kind)
+	if strings.Contains(f.kind, "reference") {
+		res.SetAdd("reference_kind_x_form", f.sigKind())
+		res.SetAdd("reference_form_x_shape", f.form+"|"+pos.sp.shape())
+		if f.form != "" {
+			res.Ev("reference_faults_inside_splices", 1)
+		}
+	}
 	res.SetAdd("target_shape", pos.shape())
 	res.SetAdd("depth_class", pos.depthClass())
 	res.SetAdd("kind_x_shape", f.kind+"|"+pos.shape())
@@ -273,23 +300,24 @@ func (cs *caseState) runFault(pos *position, f fault) {
 	if pos.ifaceRoot != nil && len(pos.path) > len(pos.ifaceRoot) {
 		res.Ev("faults_below_interface_slot", 1)
 	}
-	routes := planRoutes(cs.r, cs.V, pos.path, f, cs.base)
+	routes := planRoutes(cs.r, cs.V, pos.path, f, cs.base, cs.top.kind == kStruct)
 	obsSeed := cs.r.Int63()
 	baseline := cs.observe(directRoute(cs.base), T, pos, f, nil, obsSeed)
 	if len(routes) == 0 {
 		return
 	}
 	rt := routes[cs.r.Intn(len(routes))]
-	if cs.r.Intn(4) == 0 {
-		// the dotted spellings get a fixed share of the runs
-		var dotted []route
+	// the dotted spellings and the values produced by expansion get a fixed
+	// share of the runs each
+	if share := map[int]string{0: "dotted-", 1: "expand-"}[cs.r.Intn(4)]; share != "" {
+		var sel []route
 		for _, x := range routes {
-			if strings.HasPrefix(x.name, "dotted-") {
-				dotted = append(dotted, x)
+			if strings.HasPrefix(x.name, share) {
+				sel = append(sel, x)
 			}
 		}
-		if len(dotted) > 0 {
-			rt = dotted[cs.r.Intn(len(dotted))]
+		if len(sel) > 0 {
+			rt = sel[cs.r.Intn(len(sel))]
 		}
 	}
 	if !f.del && !cs.twin(rt, pos, f) {
@@ -316,10 +344,19 @@ func (cs *caseState) twin(rt route, pos *position, f fault) bool {
 		cs.historyFailed(rt, err, "valid twin")
 		return false
 	}
-	panicked, pv, where = harness.Safe(func() { err = b.cfg.Unpack(cs.newTarget()) })
+	panicked, pv, where = harness.Safe(func() { err = b.cfg.Unpack(cs.newTarget(), b.uopts...) })
 	res.Eval(1)
 	if panicked {
 		res.Violate("panic:Unpack", "valid twin via %s: panic %q at %s; type %v; history %s", rt.name, clip(pv, 300), where, cs.top.typ, clip(b.desc, 1500))
+		return false
+	}
+	if err != nil && strings.HasPrefix(rt.name, "expand-") {
+		// whether a value written as text is as good as the stored value is
+		// not this property's claim (a number for a duration is not): the
+		// error must be typed, the pair is not used
+		typed(res, "Unpack", err, b.desc)
+		res.Ev("expanded_twin_not_valid", 1)
+		res.SetAdd("expanded_twin_not_valid", pos.shape()+"|"+reasonClass(err))
 		return false
 	}
 	if err != nil {
@@ -371,13 +408,18 @@ func (cs *caseState) observe(rt route, T *model.Node, pos *position, f fault, ba
 	res.Ev("fault_runs", 1)
 	res.SetAdd("route", rt.name)
 	res.SetAdd("kind_x_route", f.kind+"|"+rt.name)
-	res.Key(cs.shapeID + "|" + f.kind + "|" + pos.depthClass() + "|" + rt.name)
+	if strings.HasPrefix(rt.name, "expand-") {
+		res.Ev("fault_runs_on_expanded_values", 1)
+		res.SetAdd("expanded_kind_x_anchor", f.kind+rt.name[strings.Index(rt.name, "@"):])
+		res.SetAdd("expanded_shape_x_route", pos.shape()+"|"+rt.name)
+	}
+	res.Key(cs.shapeID + "|" + f.sigKind() + "|" + pos.depthClass() + "|" + rt.name)
 	exact := ""
 	if !f.parentRaised {
 		exact = b.exactSrc
 	}
 	ctx := func() string {
-		return fmt.Sprintf("fault %s at '%s' (target %s, %s); type %v; history %s", f.kind, want, pos.shape(), pos.depthClass(), cs.top.typ, clip(b.desc, 2500))
+		return fmt.Sprintf("fault %s at '%s' (target %s, %s); type %v; history %s", f.sigKind(), want, pos.shape(), pos.depthClass(), cs.top.typ, clip(b.desc, 2500))
 	}
 	if cs.verbose {
 		fmt.Printf("fault %s at %s via %s\n  %s\n", f.kind, want, rt.name, b.desc)
@@ -419,23 +461,50 @@ func (cs *caseState) observe(rt route, T *model.Node, pos *position, f fault, ba
 	report := func(problem, shape, entry, msg string, named []string) {
 		key := entry + "|" + problem
 		seen[key] = true
-		sig := problem + ":" + f.kind + ":" + shape + ":" + pos.depthClass()
+		sig := problem + ":" + f.sigKind() + ":" + shape + ":" + pos.depthClass()
 		if problem == "fault-not-detected" {
 			// no message that could misname anything: where the setting sits
 			// does not matter, only what was put in place of what
-			sig = problem + ":" + f.kind + ":" + strings.TrimSuffix(strings.TrimSuffix(shape, "+from-child"), "+inline")
+			sig = problem + ":" + f.sigKind() + ":" + strings.TrimSuffix(strings.TrimSuffix(shape, "+from-child"), "+inline")
 		}
 		if problem == "error-names-wrong-path" && pos.ifaceRoot != nil && len(pos.path) > len(pos.ifaceRoot) && (entry == "Unpack" || entry == "Child.Unpack") &&
 			hasToken(msg, pathStr(pos.ifaceRoot), false) {
 			// the enclosing interface{} slot is named instead of the leaf inside
-			sig = problem + ":" + f.kind + ":interface-target"
+			sig = problem + ":" + f.sigKind() + ":interface-target"
 		}
 		if problem == "error-names-wrong-path" && dropped != "" && hasToken(msg, dropped, false) {
 			// the key of the absent struct itself is left out of the path
-			sig = problem + ":" + f.kind + ":drops-struct-key"
+			sig = problem + ":" + f.sigKind() + ":drops-struct-key"
 		}
 		if baseline != nil && !baseline[key] {
 			sig += ":only-via-" + rt.name
+		}
+		// deviations that are one predicate over many kinds, shapes and depths
+		isList := pos.sp != nil && (pos.sp.kind == kSlice || pos.sp.kind == kArray)
+		valSub := f.val != nil && f.val.Kind == model.KSub
+		switch {
+		case strings.HasPrefix(shape, "through-"):
+			// a call that passes through the failing reference or measures it:
+			// what matters is the call and how the reference fails
+			sig = problem + ":" + f.kind + ":" + shape
+		case problem == "error-lacks-source" && b.insideExpanded:
+			// the failing value lies inside a list or object built from expanded text
+			sig = problem + ":value-inside-expanded-container:via-" + rt.name
+		case problem == "error-lacks-source" && b.expandedItself:
+			// the list or object built from expanded text is what fails
+			// (length, validator, type) or what misses the required member
+			sig = problem + ":expanded-list-or-object-itself:via-" + rt.name
+		case problem == "error-lacks-source" && rt.name == "set-leaves" && valSub:
+			// the list or object exists only as a by-product of setter calls
+			sig = problem + ":" + f.sigKind() + ":container-implied-by-setters"
+		case problem == "error-names-wrong-source" && strings.Contains(f.kind, "reference") && isList && strings.HasSuffix(entry, "Unpack"):
+			// a failing reference where a list is expected
+			sig = problem + ":failing-reference:list-target"
+		case problem == "error-names-wrong-source" && rt.name == "merge-replace-arr" && valSub && f.val.HasA:
+			// the list was replaced as a whole by a later operand
+			sig = problem + ":" + f.sigKind() + ":list-replaced-as-a-whole:only-via-" + rt.name
+		case problem == "error-lacks-source" && f.kind == "required-in-null-struct":
+			sig = problem + ":" + f.kind
 		}
 		res.Violate(sig, "%s: %s: message %q names other settings %q, expected '%s' and source %s; %s", entry, problem, clip(msg, 500), named, want, cs.base, ctx())
 	}
@@ -467,7 +536,7 @@ func (cs *caseState) observe(rt route, T *model.Node, pos *position, f fault, ba
 	}
 
 	// Unpack of the whole configuration
-	var uo []ucfg.Option
+	uo := append([]ucfg.Option{}, b.uopts...)
 	if r.Intn(2) == 0 {
 		uo = append(uo, ucfg.PathSep("."))
 	}
@@ -482,6 +551,7 @@ func (cs *caseState) observe(rt route, T *model.Node, pos *position, f fault, ba
 
 	// the getters that must fail for this fault
 	ps := ucfg.PathSep(".")
+	gopts := append([]ucfg.Option{ps}, b.uopts...)
 	if len(f.getters) > 0 {
 		gn := f.getters[r.Intn(len(f.getters))]
 		g := getterByName(gn)
@@ -495,7 +565,7 @@ func (cs *caseState) observe(rt route, T *model.Node, pos *position, f fault, ba
 			j := 1 + r.Intn(len(pos.path)-1)
 			var cerr error
 			var ch *ucfg.Config
-			panicked, _, _ := harness.Safe(func() { ch, cerr = b.cfg.Child(pathStr(pos.path[:j]), -1, ps) })
+			panicked, _, _ := harness.Safe(func() { ch, cerr = b.cfg.Child(pathStr(pos.path[:j]), -1, gopts...) })
 			res.Eval(1)
 			if !panicked && cerr == nil && ch != nil {
 				c, name, form = ch, pathStr(pos.path[j:]), "via-child"
@@ -504,11 +574,14 @@ func (cs *caseState) observe(rt route, T *model.Node, pos *position, f fault, ba
 			}
 		}
 		var gerr error
-		panicked, pv, where := harness.Safe(func() { gerr = g.f(c, name, idx, ps) })
+		panicked, pv, where := harness.Safe(func() { gerr = g.f(c, name, idx, gopts...) })
 		res.Eval(1)
 		res.SetAdd("entry_point", gn)
 		res.SetAdd("getter_form", form)
 		res.SetAdd("kind_x_getter", f.kind+"|"+gn)
+		if f.form != "" {
+			res.SetAdd("reference_form_x_getter", f.form+"|"+gn)
+		}
 		if panicked {
 			res.Violate("panic:"+gn, "%s(%q,%d) [%s]: panic %q at %s; %s", gn, name, idx, form, clip(pv, 300), where, ctx())
 		} else {
@@ -534,7 +607,7 @@ func (cs *caseState) observe(rt route, T *model.Node, pos *position, f fault, ba
 			var cerr error
 			childFailed := false
 			panicked, pv, where := harness.Safe(func() {
-				if ch, cerr = b.cfg.Child(pathStr(pos.path[:j]), -1, ps); cerr != nil {
+				if ch, cerr = b.cfg.Child(pathStr(pos.path[:j]), -1, gopts...); cerr != nil {
 					childFailed = true
 					return
 				}
@@ -550,6 +623,64 @@ func (cs *caseState) observe(rt route, T *model.Node, pos *position, f fault, ba
 				res.Violate("history-step-failed:child:Child:"+reasonClass(cerr), "Child(%q) of an existing container failed: %s; %s", pathStr(pos.path[:j]), clip(errText(cerr), 300), ctx())
 			default:
 				judge("Child.Unpack", pos.shape()+"+from-child", cerr)
+			}
+		}
+	}
+	// a failing reference seen by the calls that have to pass through it or
+	// measure it: the failure is the reference's, whatever the call
+	if strings.Contains(f.kind, "reference") {
+		below := want + ".zz_below"
+		type bcall struct {
+			entry string
+			f     func() error
+		}
+		calls := []bcall{
+			{"Has", func() error { _, err := b.cfg.Has(below, -1, gopts...); return err }},
+			{"Remove", func() error { _, err := b.cfg.Remove(below, -1, gopts...); return err }},
+		}
+		if last := pos.path[len(pos.path)-1]; !last.isIdx {
+			calls = append(calls, bcall{"CountField", func() error {
+				holder := b.cfg
+				if len(pos.path) > 1 {
+					var err error
+					if holder, err = b.cfg.Child(pathStr(pos.path[:len(pos.path)-1]), -1, gopts...); err != nil {
+						return nil
+					}
+				}
+				_, err := holder.CountField(last.key, b.uopts...)
+				return err
+			}})
+		}
+		// the setter comes last: where it does not fail it changes the tree
+		calls = append(calls, bcall{[]string{"SetInt", "SetString", "SetChild"}[r.Intn(3)], nil})
+		for _, bc := range calls {
+			bc := bc
+			if bc.f == nil {
+				bc.f = func() error {
+					switch bc.entry {
+					case "SetInt":
+						return b.cfg.SetInt(below, -1, 1, ps)
+					case "SetString":
+						return b.cfg.SetString(below, -1, "s", ps)
+					}
+					return b.cfg.SetChild(below, -1, ucfg.New(), ps)
+				}
+			}
+			var berr error
+			panicked, pv, where := harness.Safe(func() { berr = bc.f() })
+			res.Eval(1)
+			res.SetAdd("entry_point", bc.entry)
+			switch {
+			case panicked:
+				res.Violate("panic:"+bc.entry, "%s below the failing reference: panic %q at %s; %s", bc.entry, clip(pv, 300), where, ctx())
+			case berr == nil:
+				// whether the call has to fail is not this property's claim
+				res.Ev("through_reference_call_without_error", 1)
+				res.SetAdd("through_reference_call_without_error", bc.entry+"|"+f.kind)
+			default:
+				res.Ev("through_reference_call_errors", 1)
+				res.SetAdd("through_reference_call_x_kind", bc.entry+"|"+f.sigKind())
+				judge(bc.entry, "through-"+bc.entry, berr)
 			}
 		}
 	}
